@@ -1813,10 +1813,16 @@ def monitor_c12(t):
 
 
 def _load_experiment_fn():
-    """`syne_tune.experiments.experiment_result.load_experiment` without executing the package __init__
-    (which imports the visualisation modules)"""
+    """`syne_tune.experiments.experiment_result.load_experiment`; the package import is tried first (it works since
+    /repo da6d43a), falling back to the module alone without the package __init__ (visualisation imports)"""
     import types
     import syne_tune
+    with contextlib.redirect_stdout(io.StringIO()), contextlib.redirect_stderr(io.StringIO()):
+        try:
+            from syne_tune.experiments import load_experiment
+            return load_experiment
+        except Exception:  # noqa
+            pass
     if "syne_tune.experiments" not in sys.modules or not hasattr(sys.modules["syne_tune.experiments"], "__path__"):
         pkg = types.ModuleType("syne_tune.experiments")
         pkg.__path__ = [os.path.join(os.path.dirname(syne_tune.__file__), "experiments")]
